@@ -95,7 +95,7 @@ func genReadCase(c *core.Ctx, i int, outOfRange int) *readCase {
 		sync[k] = byte(r.IntN(256))
 	}
 	var err error
-	rc.file, err = refavro.WriteContainer([]byte(rc.ds.S.JSON()), rc.ds.S, blocks, rc.ch, refavro.WriteOpts{Codec: rc.codec, Sync: sync, MetaCodecFirst: r.IntN(2) == 0})
+	rc.file, err = refavro.WriteContainer([]byte(rc.ds.S.JSON()), rc.ds.S, blocks, rc.ch, refavro.WriteOpts{Codec: rc.codec, Sync: sync, MetaCodecFirst: r.IntN(2) == 0, MetaBlocks: 1 + r.IntN(3)*r.IntN(2)})
 	if err != nil {
 		panic("harness: reference writer failed: " + err.Error())
 	}
@@ -255,7 +255,7 @@ func runC04(c *core.Ctx, i int) {
 	if !readInto(c, rc, full, r, "full target") {
 		return
 	}
-	for mode := 0; mode <= 5; mode++ {
+	for mode := 0; mode <= 6; mode++ {
 		reps := 1
 		if mode == 0 || mode == 3 {
 			reps = 2
